@@ -197,8 +197,24 @@ theorem inv_fork {touches touches' : Nat → Nat → Bool} {p : P} {lo : Nat →
 def forkDels (p : P) (f : Nat) : List W :=
   (p.records.filter (fun r => f < r.start)).reverse.map (fun r => W.delRecord r.start)
 
-theorem forkWrites_eq (p : P) (f : Nat) :
-    forkWrites p f = forkDels p f ++ [.rollback (forkRb p f) (forkRb p f - 1)] := rfl
+theorem oldForkWrites_eq (p : P) (f : Nat) :
+    oldForkWrites p f = forkDels p f ++ [.rollback (forkRb p f) (forkRb p f - 1)] := rfl
+
+theorem forkWrites_take_succ (p : P) (f j : Nat) :
+    (forkWrites p f).take (j + 1) = forkWrites p f := by
+  unfold forkWrites; simp
+
+theorem forkWrites_take_zero (p : P) (f : Nat) : applyWs p ((forkWrites p f).take 0) = p := by
+  simp [applyWs]
+
+/-- **the fork handling is one write**: whatever it dies in front of, the store is the one before
+it or the one after it -/
+theorem fork_atomic (p : P) (f j : Nat) :
+    applyWs p ((forkWrites p f).take j) = p ∨
+      applyWs p ((forkWrites p f).take j) = applyWs p (forkWrites p f) := by
+  match j with
+  | 0 => left; exact forkWrites_take_zero p f
+  | j + 1 => right; rw [forkWrites_take_succ]
 
 /-- the part of a chain at or below block `f` -/
 def below (f : Nat) (t : Nat → Nat → Bool) : Nat → Nat → Bool := fun s b => t s b && decide (b ≤ f)
@@ -239,19 +255,31 @@ theorem chain_forkDels {touches : Nat → Nat → Bool} {p : P} {lo : Nat → Na
     have := (hq.records.2.1 r hr b hbm).1
     omega
 
-/-- **a crash anywhere inside the fork handling** leaves a store that satisfies the invariant for
-every block at or below the fork point — all the old and the new chain have in common -/
-theorem fork_prefix_below {touches : Nat → Nat → Bool} {p : P} {lo : Nat → Nat} {f : Nat}
+/-- the fork handling BEFORE the repair (record deletions as writes of their own): a crash
+anywhere inside it left a store that satisfied the invariant only for the blocks at or below the
+fork point — all the old and the new chain have in common -/
+theorem old_fork_prefix_below {touches : Nat → Nat → Bool} {p : P} {lo : Nat → Nat} {f : Nat}
     (hi : Inv touches ⟨p, lo⟩) (hns : NoSpan p f) (hnc : NoClaimInRetained p lo f) (j : Nat) :
-    Inv (below f touches) ⟨applyWs p ((forkWrites p f).take j), lo⟩ := by
+    Inv (below f touches) ⟨applyWs p ((oldForkWrites p f).take j), lo⟩ := by
   by_cases hj : j ≤ (forkDels p f).length
-  · rw [forkWrites_eq, List.take_append_of_le_length hj]
+  · rw [oldForkWrites_eq, List.take_append_of_le_length hj]
     exact chain_take (Q := fun q => Inv (below f touches) ⟨q, lo⟩) _ _
       (inv_mono (below_sub f touches) hi) (chain_forkDels f (inv_mono (below_sub f touches) hi)) j
-  · have hlen : (forkWrites p f).length ≤ j := by
-      rw [forkWrites_eq, List.length_append]; simp; omega
-    rw [List.take_of_length_le hlen]
+  · have hlen : (oldForkWrites p f).length ≤ j := by
+      rw [oldForkWrites_eq, List.length_append]; simp; omega
+    rw [List.take_of_length_le hlen, applyWs_oldForkWrites, ← applyWs_forkWrites]
     exact inv_mono (below_sub f touches) (inv_fork hi hns hnc (fun _ _ _ => rfl))
+
+/-- **a crash in front of the fork handling's one write** leaves the store untouched: the
+invariant of the chain the client was on holds in full, whichever chain it follows afterwards -/
+theorem fork_prefix_inv {touches : Nat → Nat → Bool} {p : P} {lo : Nat → Nat} {f : Nat}
+    (hi : Inv touches ⟨p, lo⟩) (hns : NoSpan p f) (hnc : NoClaimInRetained p lo f) (j : Nat) :
+    Inv touches ⟨applyWs p ((forkWrites p f).take j), lo⟩ := by
+  match j with
+  | 0 => rw [forkWrites_take_zero]; exact hi
+  | j + 1 =>
+    rw [forkWrites_take_succ]
+    exact inv_fork hi hns hnc (fun _ _ _ => rfl)
 
 /-- the fork handling looks at the records at or below the fork point only -/
 theorem forked_congr {p q : P} {f : Nat} (hs : q.scripts = p.scripts) (hm : q.minF = p.minF)
@@ -332,27 +360,23 @@ theorem refork_idempotent (p : P) (f : Nat) : forked (forked p f) f = forked p f
   subst h1 h2 h3 h4
   rfl
 
-/-- **crash and re-detection**: whatever write of the fork handling the process dies in front of
-(the new tip is stored only after the fork handling, so the restarted client detects the same
-fork again), the repeated fork handling ends in exactly the store of the uninterrupted one -/
+/-- **crash and re-detection**: whether the process dies in front of the fork handling's write or
+behind it (the new tip is stored only after the fork handling, so the restarted client detects the
+same fork again), the repeated fork handling ends in exactly the store of the uninterrupted one -/
 theorem refork_after_crash (p : P) (f j : Nat) :
     let pj := applyWs p ((forkWrites p f).take j)
     applyWs pj (forkWrites pj f) = applyWs p (forkWrites p f) := by
-  intro pj
-  rw [forked_eq, forked_eq]
-  by_cases hj : j ≤ (forkDels p f).length
-  · obtain ⟨R, hR, hRf⟩ := forkDels_take p f j
-    have : pj = { p with records := R } := by
-      show applyWs p ((forkWrites p f).take j) = _
-      rw [forkWrites_eq, List.take_append_of_le_length hj, hR]
+  match j with
+  | 0 =>
+    intro pj
+    have : pj = p := forkWrites_take_zero p f
     rw [this]
-    exact forked_congr rfl rfl rfl hRf
-  · have hlen : (forkWrites p f).length ≤ j := by
-      rw [forkWrites_eq, List.length_append]; simp; omega
+  | j + 1 =>
+    intro pj
     have : pj = forked p f := by
-      show applyWs p ((forkWrites p f).take j) = _
-      rw [List.take_of_length_le hlen, forked_eq]
-    rw [this]
+      show applyWs p ((forkWrites p f).take (j + 1)) = _
+      rw [forkWrites_take_succ, forked_eq]
+    rw [this, forked_eq, forked_eq]
     exact refork_idempotent p f
 
 /-! ## histories with reorganisations -/
